@@ -63,7 +63,26 @@ func writeSettings(fname string, settings *settings) error {
 		return fmt.Errorf("failed to create settings directory: %w", err)
 	}
 
-	if err := os.WriteFile(fname, data, 0644); err != nil {
+	// Write to a temporary file in the same directory and rename it over
+	// fname, so that a crash or a failed write never leaves a truncated
+	// settings file and readers never observe a partial one.
+	tmp, err := os.CreateTemp(filepath.Dir(fname), filepath.Base(fname)+".tmp*")
+	if err != nil {
+		return fmt.Errorf("failed to write settings: %w", err)
+	}
+	defer os.Remove(tmp.Name()) // Fails harmlessly once the file has been renamed.
+	if _, err := tmp.Write(data); err != nil {
+		tmp.Close()
+		return fmt.Errorf("failed to write settings: %w", err)
+	}
+	if err := tmp.Chmod(0644); err != nil {
+		tmp.Close()
+		return fmt.Errorf("failed to write settings: %w", err)
+	}
+	if err := tmp.Close(); err != nil {
+		return fmt.Errorf("failed to write settings: %w", err)
+	}
+	if err := os.Rename(tmp.Name(), fname); err != nil {
 		return fmt.Errorf("failed to write settings: %w", err)
 	}
 	return nil
